@@ -35,6 +35,7 @@ def plan(tier, seed):
     specs = [{'count': 110 if tier == 'quick' else 600, 'deep': tier == 'thorough' and i % 4 == 2} for i in range(n)]
     for i in range(2 if tier == 'quick' else 8):
         specs.append({'kind': 'deep', 'count': 24 if tier == 'quick' else 96})
+    specs.append({'kind': 'blank_runs'})
     for i in range(2 if tier == 'quick' else 6):
         specs.append({'kind': 'bigcart', 'width': (4, 8, 3, 6, 2, 5)[i], 'stmts': 150})
     return specs
@@ -420,6 +421,44 @@ def run_deep(spec, ctx, cli_dir):
     ctx.sample({'deep_program': deep_program(rng, 6)})
 
 
+STATEMENT_TEMPLATES = (b'function f%d()\nx=1\nend', b'local function g%d()\nreturn 1\nend', b'if a%d then\nb=1\nend', b'for i%d=1,2 do\nc=1\nend',
+                       b'while w%d do\nbreak\nend', b'do\nlocal d%d=1\nend', b'repeat\ne=1\nuntil u%d', b'local v%d=1', b'x%d=1', b'f%d(1)',
+                       b'-- comment %d\nfunction h()\nend', b'--[[ block %d ]]\nlocal function k()\nend', b'if (a%d) b=2', b'?"p%d"',
+                       b'::l%d::', b't%d={\n1,\n2\n}', b'return %d')
+
+
+def run_blank_runs(spec, ctx, cli_dir):
+    """Runs of 2-5 empty / white-space-only lines in front of every kind of statement, at the top level and inside a block."""
+    rng = ctx.rng
+    k = 0
+    for nested in (False, True):
+        for ti, tmpl in enumerate(STATEMENT_TEMPLATES):
+            for run in (2, 3, 5):
+                if tmpl.startswith(b'return') and not nested:
+                    continue
+                k += 1
+                blanks = b''.join(rng.choice((b'\n', b'\n', b' \n', b'\t\n', b'  \t \n')) for _ in range(run))
+                stmt = tmpl % k if b'%d' in tmpl else tmpl
+                after = b'' if tmpl.startswith(b'return') else b'\n' + blanks + b'z=9'
+                body = b'y=0\n' + blanks + stmt + after
+                src = (b'do\n' + body + b'\nend\n') if nested else body + b'\n'
+                if reflex.try_lex(src)[1] is not None:
+                    continue
+                try:
+                    from pico8.lua import lua
+                    lua.Lua.from_lines([src], version=ambient.VERSION[0])
+                except Exception as e:
+                    ctx.inconclusive_because('blank-run template does not parse: %r %r' % (e, src))
+                    return
+                width = (2, 4, 0, 3, 8)[k % 5]
+                ctx.feature('blank_runs_before_statement')
+                scopes = []
+                case = {'src': src, 'width': width, 'style': 'blank-runs', 'scopes': scopes, 'nsig': len(reflex.sig(reflex.lex(src)))}
+                # (line-scoped templates: the depth oracle needs their token ranges; they are leaf lines here, so the plain oracle is right)
+                check_one(ctx, src, width, case, metamorphic_rng=rng)
+    ctx.sample({'blank_runs': 'y=0 <2-5 blank lines> <statement> <blank lines> z=9, at top level and inside do...end'})
+
+
 def run_bigcart(spec, ctx, cli_dir):
     """The command line on cart-sized code: within 65535 characters as loaded, beyond it once indented."""
     rng = ctx.rng
@@ -473,6 +512,8 @@ def run_shard(spec, ctx):
             run_deep(spec, ctx, cli_dir)
         elif spec.get('kind') == 'bigcart':
             run_bigcart(spec, ctx, cli_dir)
+        elif spec.get('kind') == 'blank_runs':
+            run_blank_runs(spec, ctx, cli_dir)
         else:
             _run_shard(spec, ctx, cli_dir)
     finally:
@@ -534,6 +575,8 @@ def gates(m, tier):
             missed.append('%s seen %d times' % (k, f.get(k, 0)))
     if mon.get('cli_outputs_compared', 0) < 50 or mon.get('shared_args_passes', 0) < 100:
         missed.append('route independence: cli %d, shared args %d' % (mon.get('cli_outputs_compared', 0), mon.get('shared_args_passes', 0)))
+    if f.get('blank_runs_before_statement', 0) < 80:
+        missed.append('blank-line runs before statements: %d' % f.get('blank_runs_before_statement', 0))
     if f.get('indentation_beyond_80_columns', 0) < 10 or f.get('indentation_beyond_160_columns', 0) < 3:
         missed.append('indentation beyond 80 columns: %d programs (beyond 160: %d)' % (
             f.get('indentation_beyond_80_columns', 0), f.get('indentation_beyond_160_columns', 0)))
